@@ -7,21 +7,23 @@ import (
 	"time"
 
 	"github.com/ethereum/go-ethereum/common"
+	"github.com/ethereum/go-ethereum/core/rawdb"
 	"github.com/ethereum/go-ethereum/core/types"
 )
 
 type opResult struct {
-	kind      string
-	err       error
-	mustFail  bool      // contract: error, no side effects, no events
-	seg       []*mblock // insert: submitted blocks
-	silentOK  map[common.Hash]bool
-	target    *mblock // setcanonical
-	n         uint64  // sethead
-	fin       *mblock
-	froze     bool
-	subkind   string
-	restarted bool
+	kind                  string
+	err                   error
+	mustFail              bool      // contract: error, no side effects, no events
+	seg                   []*mblock // insert: submitted blocks
+	silentOK              map[common.Hash]bool
+	storedWithoutReceipts map[common.Hash]bool // known with state but stored without receipts before the import
+	target                *mblock              // setcanonical
+	n                     uint64               // sethead
+	fin                   *mblock
+	froze                 bool
+	subkind               string
+	restarted             bool
 }
 
 type snapshotState struct {
@@ -29,8 +31,9 @@ type snapshotState struct {
 	headNum   uint64    // head block number
 	finalHash common.Hash
 
-	staleAbove bool                 // canonical hashes exist above the head header (reported once per step)
-	noReceipts map[common.Hash]bool // canonical blocks whose receipts are missing
+	staleAbove     bool                 // canonical hashes exist above the head header (reported once per step)
+	noReceipts     map[common.Hash]bool // canonical blocks whose receipts are missing
+	noReceiptsList []*mblock
 }
 
 func (s *sut) known(b *mblock) bool { return s.bc.GetBlockByHash(b.hash()) != nil }
@@ -120,6 +123,7 @@ func (s *sut) step(rng *rand.Rand, opi int) bool {
 		}
 		res.seg = seg
 		res.silentOK = map[common.Hash]bool{}
+		res.storedWithoutReceipts = s.storedWithoutReceipts()
 		blocks := make(types.Blocks, len(seg))
 		for i, mb := range seg {
 			blocks[i] = mb.block
@@ -149,6 +153,7 @@ func (s *sut) step(rng *rand.Rand, opi int) bool {
 			return true
 		}
 		res.target = b
+		res.storedWithoutReceipts = s.storedWithoutReceipts()
 		s.logop("SetCanonical(%s)", b)
 		blk := s.bc.GetBlockByHash(b.hash())
 		s.startReader(int64(opi))
@@ -217,4 +222,17 @@ func (s *sut) logop(format string, a ...any) {
 	op := fmt.Sprintf(format, a...)
 	s.oplog = append(s.oplog, op)
 	s.r.Case("case %d (%s) op %d: %s   [VERIF_ONLY=%d]", s.idx, s.desc, len(s.oplog), op, s.idx)
+}
+
+// storedWithoutReceipts returns the tree blocks that are present in the database with
+// transactions but without receipts (left behind by insertSideChain -> writeBlockWithoutState,
+// which expects them to be executed later).
+func (s *sut) storedWithoutReceipts() map[common.Hash]bool {
+	out := map[common.Hash]bool{}
+	for _, mb := range s.t.all[1:] {
+		if len(mb.block.Transactions()) > 0 && rawdb.HasBody(s.db, mb.hash(), mb.num) && len(rawdb.ReadRawReceipts(s.db, mb.hash(), mb.num)) == 0 {
+			out[mb.hash()] = true
+		}
+	}
+	return out
 }
